@@ -3,7 +3,7 @@
 //! Debug rendering compared with the reference structure rendered in the same form.
 
 use crate::util::*;
-use peginator_codegen::{CodegenGrammar, CodegenSettings, Grammar as RealGrammar};
+use peginator_codegen::{CodegenGrammar, CodegenSettings, Compile, Grammar as RealGrammar};
 use rayon::prelude::*;
 use refpeg::ast::*;
 use refpeg::astdebug::grammar_debug;
@@ -281,6 +281,65 @@ pub fn run(tier: Tier) {
         st.merge(r);
     }
     let n_layout = st.evaluations;
+    // the same texts read from a file by the build-script helper: layouts that differ at the start and at the end
+    // of the file (comment / line break / nothing before the first and after the last token) and everywhere at once
+    let dir = std::env::temp_dir().join(format!("verif-c12-{}", std::process::id()));
+    std::fs::create_dir_all(&dir).unwrap();
+    let step = if tier == Tier::Quick { 4 } else { 1 };
+    let fres: Vec<Stats> = grammars
+        .par_iter()
+        .enumerate()
+        .filter(|(i, _)| i % step == 0)
+        .map(|(gi, g)| {
+            let mut st = Stats::new();
+            st.max_viol = 2;
+            let tokens: Vec<String> = grammar_tokens(g).into_iter().map(|t| t.s).collect();
+            let n = tokens.len();
+            let expected = code_of(&grammar_text(g)).map(|c| proc_macro2::TokenStream::from_str(&c).unwrap().to_string());
+            let last = format!("gap {n} =");
+            for (vi, (text, what)) in variants(&tokens, false).into_iter().enumerate() {
+                if !(what == "canonical" || what.starts_with("all gaps") || what.starts_with("gap 0 =") || what.starts_with(&last)) {
+                    continue;
+                }
+                let src = dir.join(format!("g{gi}_{vi}.ebnf"));
+                let dst = dir.join(format!("g{gi}_{vi}.rs"));
+                std::fs::write(&src, &text).unwrap();
+                let r = std::panic::catch_unwind(|| Compile::file(&src).destination(&dst).run());
+                st.evaluations += 1;
+                st.nontrivial += 1;
+                st.bump("file_route_compilations", 1);
+                let got: Result<String, String> = match r {
+                    Err(p) => Err(format!("panic: {}", panic_message(p))),
+                    Ok(Err(e)) => Err(format!("{e:#}")),
+                    Ok(Ok(())) => {
+                        let body = std::fs::read_to_string(&dst).unwrap_or_default();
+                        let mut rest = body.as_str();
+                        while rest.starts_with("//") {
+                            rest = rest.find('\n').map(|i| &rest[i + 1..]).unwrap_or("");
+                        }
+                        proc_macro2::TokenStream::from_str(rest).map(|t| t.to_string()).map_err(|e| format!("destination does not tokenise: {e}"))
+                    }
+                };
+                let same = match (&expected, &got) {
+                    (Ok(a), Ok(b)) => a == b,
+                    (Err(_), Err(e)) => !e.starts_with("panic"),
+                    _ => false,
+                };
+                if !same {
+                    st.violation("C12", "file-read-differently", json!({"grammar": text, "input": format!("Compile::file, {what}"), "canonical": grammar_text(g),
+                        "expected": match &expected { Ok(_) => "the code of the canonical text".to_string(), Err(e) => format!("an error ({e})") },
+                        "actual": match &got { Ok(_) => "different code".to_string(), Err(e) => e.clone() }}));
+                }
+                let _ = std::fs::remove_file(&src);
+                let _ = std::fs::remove_file(&dst);
+            }
+            st
+        })
+        .collect();
+    for r in fres {
+        st.merge(r);
+    }
+    let _ = std::fs::remove_dir_all(&dir);
     // escapes: structure + generated code identical to the canonically spelled grammar
     let esc = escape_grammars(tier);
     let eres: Vec<Stats> = esc
